@@ -149,6 +149,18 @@ claim("C09", "HIR exit inventory with effect-before-exit and compensation-in-bra
       "before the method; only the reviewed results are ignored; the trait is sealed. remove_method_and_scope drops removed references, so a failing purge loses them: known findings D10a/b (probe in findings/).",
       "the fault × occurrence enumeration as an experiment; atomicity of concrete stores.", "DESIGN.md §7 C09")
 
+claim("C05", "MIR panic inventory (Assert terminators, diverging calls, frozen panic-API and dependency-panic tables) with per-site discharge: constant folding, upper-bound interval analysis, HIR guard dominance tied to the site's operands, constructor gates, cross-property rule dependencies, reviewed table with site counts; unsafe-code inventory",
+      "Decides, for every non-test body of the library crates (closures and async bodies included), that each construct that can panic — bounds/overflow/division Assert, "
+      "panic!/unreachable!/assert!, unwrap/expect, indexing and slicing, Vec/String positional edits, GenericArray collection, time offset arithmetic, the known-panicking "
+      "did_url_parser entry — is unreachable or cannot fail: by constants, by operand upper bounds, by a dominating guard on the same operands, by the validating constructor of the "
+      "type (private fields, serde try_from, construction only after validation succeeded), by rules of C10/C12/C13/C17 that are re-run and must pass, or by a frozen one-line review "
+      "with the number of sites it covers in that function. A new panic-capable site anywhere — also one added to an already reviewed function — a removed or weakened guard, a "
+      "bypassed constructor gate, a new unsafe block or a dropped #![forbid(unsafe_code)] is reported with function and construct. Four confirmed panics are known findings "
+      "(did_url_parser at three call sites, IotaDID::from_alias_id); three more were repaired (fix: commits). This decides reachability of panic sites in this repository's code, "
+      "not the behaviour of dependencies.",
+      "panics inside dependencies whose entry function is not in the dependency table; stack exhaustion on deeply nested JSON; allocation failure/decompression bombs; "
+      "32-bit-only overflow of StatusList2021::len; the 46 reviewed judgements themselves (listed in the evidence).", "DESIGN.md §7 C05")
+
 for _p, _r in {
     "C01": "rules not yet implemented in this revision (planned, DESIGN §7)", "C02": "rules not yet implemented in this revision",
     "C03": "rules not yet implemented in this revision", "C04": "rules not yet implemented in this revision",
